@@ -106,5 +106,7 @@ def run(ctx, rep):
                 ok = names == ['p0', 'p1', 'p2']
         rep.ob('N-orient', 'signed_area=orient2d(p0,p1,p2),x->x,y->y', ok,
                'signed_area must pass (x,y) of p0, p1, p2 to orient2d in this order; found %s' % found, loc=b.loc(b.j['line_lo']), reason='provenance')
+    import witness
+    witness.check(ctx, rep, ['WPairings', 'WPairingsNeg'], rule='W-types')
     # no precision-specific constant / tolerance
     degreerules.check_degrees(ctx, rep, rule='R-degree')
